@@ -3,17 +3,21 @@
 (* get_cached_plan holds the cache mutex across lookup *and* plan creation,   *)
 (* so GetPlan is one atomic action; running a plan happens outside the lock.  *)
 (* Requests are *sequences* of ids (the API takes slices), so duplicate ids   *)
-(* and reorderings are in the space.  The transcription of                    *)
-(* CachedPlan::matches compares lengths and membership only.                  *)
-(*                                                                            *)
-(* CheckDupsFirst = FALSE is the pinned code: the duplicate check lives in    *)
-(* create_plan, i.e. only on a cache miss.  TLC then finds the behaviour      *)
-(*   t1: GetPlan(<<a,b>>) (miss, cached), t2: GetPlan(<<a,a>>) (HIT)          *)
-(* violating PlanFitsRequest; it was reproduced on the real code (panic in    *)
-(* run_plan) and repaired.  CheckDupsFirst = TRUE is the repaired code.       *)
+(* and reorderings are in the space.  MatchMode selects the transcription of  *)
+(* CachedPlan::matches:                                                       *)
+(*  "sorted_equal" - the code as it is: the sorted copy of the requested ids  *)
+(*     equals the plan's sorted id vector (same length, same set);            *)
+(*  "len_member"   - the pinned code: lengths and membership only.  The       *)
+(*     duplicate check lives in create_plan, i.e. only on a cache miss, and   *)
+(*     TLC finds  t1: GetPlan(<<a,b>>) (miss, cached), t2: GetPlan(<<a,a>>)   *)
+(*     (HIT) violating PlanFitsRequest; reproduced on the real code (panic    *)
+(*     in run_plan) and repaired;                                             *)
+(*  "superset"     - a hypothetical relaxation (inputs may be a superset of   *)
+(*     the cached plan's): TLC finds GetPlan(<<a>>), GetPlan(<<a,b>>) (HIT):  *)
+(*     the plan recomputes b instead of using the supplied value.             *)
 EXTENDS Naturals, Sequences, FiniteSets, TLC
 
-CONSTANTS Threads, InIds, OutIds, MaxLen, ReqsPerThread, CheckDupsFirst
+CONSTANTS Threads, InIds, OutIds, MaxLen, ReqsPerThread, MatchMode
 
 VARIABLES cached,   \* None or [ins: set, outs: set, nins, nouts] (the sorted id vectors of CachedPlan)
           pc,       \* thread -> "idle" | "running"
@@ -33,8 +37,12 @@ WellFormed(r) == NoDup(r.ins) /\ NoDup(r.outs)
 Key(r) == [ins |-> RangeOf(r.ins), outs |-> RangeOf(r.outs)]
 
 \* CachedPlan::matches
-Matches(c, r) == /\ Len(r.ins) = c.nins /\ \A i \in DOMAIN r.ins : r.ins[i] \in c.ins
-                 /\ Len(r.outs) = c.nouts /\ \A i \in DOMAIN r.outs : r.outs[i] \in c.outs
+SameIds(n, set, ids) == Len(ids) = n /\ RangeOf(ids) = set           \* sort + compare against a duplicate-free sorted vector
+LenMember(n, set, ids) == Len(ids) = n /\ \A i \in DOMAIN ids : ids[i] \in set
+Matches(c, r) ==
+  CASE MatchMode = "sorted_equal" -> SameIds(c.nins, c.ins, r.ins) /\ SameIds(c.nouts, c.outs, r.outs)
+    [] MatchMode = "len_member"   -> LenMember(c.nins, c.ins, r.ins) /\ LenMember(c.nouts, c.outs, r.outs)
+    [] MatchMode = "superset"     -> NoDup(r.ins) /\ c.ins \subseteq RangeOf(r.ins) /\ SameIds(c.nouts, c.outs, r.outs)
 
 Init == /\ cached = None /\ pc = [t \in Threads |-> "idle"] /\ cur = [t \in Threads |-> None]
         /\ got = [t \in Threads |-> None] /\ left = [t \in Threads |-> ReqsPerThread] /\ hist = <<>>
@@ -45,9 +53,7 @@ GetPlan(t, r) ==
   /\ left' = [left EXCEPT ![t] = @ - 1]
   /\ cur' = [cur EXCEPT ![t] = r]
   /\ hist' = Append(hist, [t |-> t, ins |-> r.ins, outs |-> r.outs])
-  /\ IF CheckDupsFirst /\ ~WellFormed(r)
-     THEN got' = [got EXCEPT ![t] = [kind |-> "err"]] /\ UNCHANGED cached
-     ELSE IF cached # None /\ Matches(cached, r)
+  /\ IF cached # None /\ Matches(cached, r)
      THEN got' = [got EXCEPT ![t] = [kind |-> "plan", key |-> [ins |-> cached.ins, outs |-> cached.outs]]]
           /\ UNCHANGED cached
      ELSE IF WellFormed(r)
